@@ -14,3 +14,5 @@ def run(ctx, rep):
     import re
     from ..rules import more2
     more2.rule_arg_names(mod, rep, lambda f: re.match(r"p[sdcz]gssvx$|[sdcz]gscon$|[sdcz]langs$|[sdcz]lacon_$|[sdcz]PivotGrowth$", f.name) is not None, floor=1)
+    from ..rules import more4
+    more4.rule_extent_pairs(mod, rep)
